@@ -127,6 +127,21 @@ func genBV2Corpus(r *Rng, n int, w *bufio.Writer) {
 			Ins:     []bvIn{{Conf: true, Asset: 0, Value: 1000, Iss: 1, IssValue: 70, IssToken: 2, IssNoFlag: true}},
 			Outs:    []bvOut{{Asset: 0, Value: 900, Blind: true}, {Asset: 100, Value: 70, Blind: true}, {Asset: 200, Value: 2, Blind: true}, {Asset: 0, Value: 100, Fee: true}},
 			Parties: []bvParty{{Ctor: 0, Own: []uint32{0}, Outs: []uint32{0, 1, 2}, Iss: []uint32{0}}}},
+		// unblinded new issuance with tokens, packet serialized between updater and blinder (even seed), token output explicit
+		&bvShape{Seed: 24,
+			Ins:     []bvIn{{Conf: true, Asset: 0, Value: 1000, Iss: 1, IssValue: 70, IssToken: 2, IssBlinded: false}},
+			Outs:    []bvOut{{Asset: 0, Value: 900, Blind: true}, {Asset: 100, Value: 70, Blind: true}, {Asset: 200, Value: 2}, {Asset: 0, Value: 100, Fee: true}},
+			Parties: []bvParty{{Ctor: 0, Own: []uint32{0}, Outs: []uint32{0, 1}}}},
+		// token-only blinded issuance (null asset amount) on the owned input
+		&bvShape{Seed: 25,
+			Ins:     []bvIn{{Conf: true, Asset: 0, Value: 1000, Iss: 1, IssValue: 0, IssToken: 3, IssBlinded: true}},
+			Outs:    []bvOut{{Asset: 0, Value: 900, Blind: true}, {Asset: 200, Value: 3, Blind: true}, {Asset: 0, Value: 100, Fee: true}},
+			Parties: []bvParty{{Ctor: 0, Own: []uint32{0}, Outs: []uint32{0, 1}, Iss: []uint32{0}}}},
+		// the same in a two-party exchange: the non-last party blinds the token-only issuance
+		&bvShape{Seed: 26,
+			Ins:     []bvIn{{Conf: false, Asset: 0, Value: 1000}, {Conf: true, Asset: 1, Value: 5, Iss: 1, IssValue: 0, IssToken: 3, IssBlinded: true}},
+			Outs:    []bvOut{{Asset: 0, Value: 900, Blind: true}, {Asset: 1, Value: 5, Blind: true, BlinderIdx: 1}, {Asset: 201, Value: 3, Blind: true, BlinderIdx: 1}, {Asset: 0, Value: 100, Fee: true}},
+			Parties: []bvParty{{Ctor: 0, Own: []uint32{1}, Outs: []uint32{1, 2}, Iss: []uint32{1}}, {Ctor: 0, Own: []uint32{0}, Outs: []uint32{0}}}},
 	}
 	bvGenParallel(len(shapes), func(i int) string { return bvV2CaseLine(shapes[i]) }, w)
 }
